@@ -1,6 +1,30 @@
 """C04 - unbuffered / rc_first / documented random-order evaluation agrees with the default engine."""
+import hashlib
+import json
+import os
+
 from .. import progs, semcheck
 from . import common
+
+CORPUS_SEED = 424242
+CORPUS_MODES = [("unbuf", "unbuf"), ("rc", "rc")] + [("rand#%d" % s, "rand:%d" % (9000 + s)) for s in range(5)]
+KNOWN_CASES = os.path.join(os.path.dirname(os.path.dirname(os.path.dirname(os.path.abspath(__file__)))), "tools", "c04_corpus_known.json")
+
+
+def corpus():
+    """A FIXED set of cyclic programs (independent of the run's seed).  The unbuffered modes of the pinned tree fail on many
+    cyclic programs (KF5, KF6, KF6b, KF7, KF27); on this corpus the failing (program, mode) pairs are listed one by one in
+    tools/c04_corpus_known.json, so that any OTHER pair that starts to fail is reported."""
+    P = [p for p in semcheck.gen_programs(CORPUS_SEED, 700, "strat", p_edge=True) if semcheck.triggers(p).get("cyclic")][:140]
+    P += common.mutual_family(90, CORPUS_SEED)
+    P += [p for p in common.cyclic_family(120, CORPUS_SEED, evidence=0.3) if semcheck.triggers(p).get("cyclic")][:60]
+    return P
+
+
+def case_key(p, vn):
+    q = {k: v for k, v in p.items() if k != "id"}
+    return "%s/%s" % (hashlib.sha1(progs.canon(q).encode()).hexdigest()[:12], vn)
+
 
 
 def run(ctx):
@@ -20,9 +44,32 @@ def run(ctx):
         ctx.cov["relational"] = common.relational(ctx, P_, J, runs, clause="mode-dependent")
 
     J, runs, cov = common.sem_check(ctx, P, variants, level="exploration", post=post, write=False)
+    cov["corpus"] = run_corpus(ctx)
     cov["modes"] = ["unbuffered depth-first", "unbuffered rc_first", "%d seeded random orders (engine.rst)" % k]
     cov["relational_comparisons"] = ctx.cov.get("relational", 0)
     ctx.write_evidence("exploration", cov)
+
+
+def run_corpus(ctx):
+    P = corpus()
+    unstable = set(json.load(open(KNOWN_CASES)).get("unstable_programs", [])) if os.path.exists(KNOWN_CASES) else set()
+    P = [p for p in P if case_key(p, "").split("/")[0] not in unstable]
+
+    def variants(p):
+        t = progs.render(p)
+        return [("default", {"text": t})] + [(vn, {"text": t, "engine": eng}) for vn, eng in CORPUS_MODES]
+
+    def sig_extra(p, j, r, vn):
+        # identified by the specific input: the broad signatures of the unbuffered-mode findings do not apply here
+        return {"cyclic": "corpus", "corpus_case": case_key(p, vn)}
+
+    def post(P_, J, runs):
+        ctx.cov["relational_corpus"] = common.relational(ctx, P_, J, runs, clause="mode-dependent", sig_extra=sig_extra)
+
+    before = ctx.evaluations
+    common.sem_check(ctx, P, variants, level="exploration", post=post, write=False, sig_extra=sig_extra)
+    return {"programs": len(P), "modes": [m for m, _ in CORPUS_MODES], "runs": ctx.evaluations - before,
+            "excluded_unstable_programs": len(unstable)}
 
 
 def replay(ctx, path):
